@@ -100,28 +100,28 @@ def has_owned_under_container(t):
     return t[0] not in ("own", "ref") and owned(t)
 
 
-def composite_part(rng, tier):
+def composite_part(rng, tier, crate="outputs12", limit=None):
     """owned leaves inside Option/Result/Vec/Poll/tuples: single-use vs repeated-use requests.
     returns (number of cases, list of (type, value tokens, model lines, impl lines))"""
     import os, shutil
     from . import C17
     src = os.path.join(C.VERIF, "harness", "outputs")
-    dst = os.path.join(C.VERIF, "harness", "outputs12")
+    dst = os.path.join(C.VERIF, "harness", crate)
     os.makedirs(os.path.join(dst, "src"), exist_ok=True)
     for f in ("main.rs", "obs.rs"):
         a, b = os.path.join(src, "src", f), os.path.join(dst, "src", f)
         if not os.path.exists(b) or open(a).read() != open(b).read():
             shutil.copy(a, b)
-    tin = open(os.path.join(src, "Cargo.toml.in")).read().replace('name = "voutputs"', 'name = "voutputs12"')
+    tin = open(os.path.join(src, "Cargo.toml.in")).read().replace('name = "voutputs"', f'name = "v{crate}"')
     if not os.path.exists(os.path.join(dst, "Cargo.toml.in")) or open(os.path.join(dst, "Cargo.toml.in")).read() != tin:
         open(os.path.join(dst, "Cargo.toml.in"), "w").write(tin)
     old = C17.HARNESS
-    C17.HARNESS = "outputs12"
+    C17.HARNESS = crate
     try:
         types = [t for t in C17.gen_types(rng, "quick" if tier == "quick" else "thorough") if has_owned_under_container(t)]
         infos = [i for i in C17.analyse_types(types) if i["kind"].split("<")[0] in ("Deep", "Shallow") or not i["accept"]]
         infos.sort(key=lambda i: -C17.depth(i["ty"]))
-        infos = infos[:90 if tier == "quick" else 300]
+        infos = infos[:limit or (90 if tier == "quick" else 300)]
         binary, acc, mism = C17.build_accepted(infos)
         cases = []
         for k, inf in enumerate(acc):
@@ -216,6 +216,25 @@ def run(tier, seed):
     return 0
 
 
+def replay_composite(prop, payload, path, crate):
+    from . import C17
+    old = C17.HARNESS
+    C17.HARNESS = crate
+    try:
+        def tup(x):
+            return tuple(tup(y) for y in x) if isinstance(x, list) and x and isinstance(x[0], str) else ([tup(y) for y in x] if isinstance(x, list) else x)
+        infos = C17.analyse_types([tup(payload["type"])])
+        binary, acc, mism = C17.build_accepted(infos)
+        impl, model = C17.run_cases(binary, acc, [{"k": 0, "v": tup(payload["value"])}])
+    finally:
+        C17.HARNESS = old
+    print("model:", C17.strip_obs(model[0])); print("impl :", C17.strip_obs(impl[0]))
+    if C17.strip_obs(impl[0]) != C17.strip_obs(model[0]):
+        C.violation(prop, path); return 1
+    print("agree")
+    return 0
+
+
 def replay(path):
     payload = json.load(open(path))
     part = payload.get("part")
@@ -232,6 +251,8 @@ def replay(path):
         if B.project(impl[0]) != B.project(model[0]):
             C.violation("C12", path); return 1
     elif part == "composite":
+        return replay_composite("C12", payload, path, "outputs12")
+    elif part == "composite-old":
         import os
         from . import C17
         old = C17.HARNESS
